@@ -101,6 +101,14 @@ var (
 	ErrSignatureEmpty = errors.New("signature is empty")
 )
 
+// Validate performs stateless validation of a signed header. It is what the P2P header exchange
+// calls on every received header; without it the method promoted from the embedded unsigned Header
+// would be used, which does not look at the signature at all.
+func (sh *SignedHeader) Validate() error {
+	return sh.ValidateBasic()
+}
+
+// ValidateBasic performs basic validation of a signed header.
 func (sh *SignedHeader) ValidateBasic() error {
 	if err := sh.Header.ValidateBasic(); err != nil {
 		return err
